@@ -1,7 +1,223 @@
-// heap_ops2.hpp - further heap-mode ops (blocks, copy, deepCopy, reassignIds, route tracing, durations)
+// heap_ops2.hpp - further heap-mode ops: block formats, times, copy, deepCopy, deepCopyTo, reassignIds,
+// route tracing, updateBlockFormatDurations, object-creation helpers. Included by heap_drv.cpp.
+#include <adm/private/copy.hpp>
+
 namespace {
+
+Time parse_tm(const std::string& s) {
+  if (s.compare(0, 3, "ns:") == 0) return Time(std::chrono::nanoseconds(std::stoll(s.substr(3))));
+  auto slash = s.find('/');
+  return Time(FractionalTime(std::stoll(s.substr(3, slash - 3)), std::stoll(s.substr(slash + 1))));
+}
+std::string show_tm(const Time& t) {
+  std::ostringstream o;
+  if (t.isNanoseconds()) o << "ns:" << t.asNanoseconds().count();
+  else { auto f = t.asFractional(); o << "fr:" << f.numerator() << "/" << f.denominator(); }
+  return o.str();
+}
+
+template <typename B> std::string do_block_t(El& e, B b, const std::vector<std::string>& t) {
+  unsigned ty = std::stoul(t.at(3)), val = std::stoul(t.at(4)), ctr = std::stoul(t.at(5));
+  if (ty != 0 || val != 0 || ctr != 0)
+    b.set(AudioBlockFormatId(TypeDescriptor(ty), AudioBlockFormatIdValue(val), AudioBlockFormatIdCounter(ctr)));
+  if (t.at(6) != "-") b.set(Rtime(parse_tm(t[6])));
+  if (t.at(7) != "-") b.set(Duration(parse_tm(t[7])));
+  e.chan->add(b);
+  return "ok";
+}
+
+std::string do_block(World& w, const std::vector<std::string>& t) {
+  El& e = w.el(t.at(1), KChan);
+  int ty = std::stoi(t.at(2));
+  switch (ty) {
+    case 1: return do_block_t(e, AudioBlockFormatDirectSpeakers(), t);
+    case 2: return do_block_t(e, AudioBlockFormatMatrix(), t);
+    case 3: return do_block_t(e, AudioBlockFormatObjects(SphericalPosition()), t);
+    case 4: return do_block_t(e, AudioBlockFormatHoa(Order(1), Degree(1)), t);
+    case 5: return do_block_t(e, AudioBlockFormatBinaural(), t);
+    default: throw Bad();
+  }
+}
+
+template <typename B> void one_vec_times(std::ostringstream& o, const AudioChannelFormat& c, int t) {
+  auto r = c.getElements<B>();
+  if (r.begin() == r.end()) return;
+  o << t << ":";
+  bool first = true;
+  for (auto const& b : r) {
+    if (!first) o << ",";
+    first = false;
+    o << show_tm(b.template get<Rtime>().get()) << "+"
+      << (b.template has<Duration>() ? show_tm(b.template get<Duration>().get()) : std::string("-"));
+  }
+  o << ";";
+}
+std::string block_times(const El& e) {
+  std::ostringstream o;
+  o << "{";
+  one_vec_times<AudioBlockFormatDirectSpeakers>(o, *e.chan, 1);
+  one_vec_times<AudioBlockFormatMatrix>(o, *e.chan, 2);
+  one_vec_times<AudioBlockFormatObjects>(o, *e.chan, 3);
+  one_vec_times<AudioBlockFormatHoa>(o, *e.chan, 4);
+  one_vec_times<AudioBlockFormatBinaural>(o, *e.chan, 5);
+  o << "}";
+  return o.str();
+}
+
+std::string extra_fields(const World&, const El& e) {
+  std::ostringstream o;
+  if (e.kind == KProg) {
+    o << " start=" << show_tm(e.prog->get<Start>().get())
+      << " end=" << (e.prog->has<End>() ? show_tm(e.prog->get<End>().get()) : std::string("-"));
+  } else if (e.kind == KObj) {
+    o << " start=" << show_tm(e.obj->get<Start>().get())
+      << " dur=" << (e.obj->has<Duration>() ? show_tm(e.obj->get<Duration>().get()) : std::string("-"));
+  } else if (e.kind == KChan) {
+    o << " times=" << block_times(e);
+  }
+  return o.str();
+}
+
+struct PtrOf : public boost::static_visitor<const void*> {
+  template <typename T> const void* operator()(const std::shared_ptr<T>& p) const { return p.get(); }
+};
+
+template <typename T> void bind_new(World& w, unsigned& n, Kind k, std::shared_ptr<T> p) {
+  w.bind("h" + std::to_string(n++), mk<T>(k, p));
+}
+struct BindCopy : public boost::static_visitor<> {
+  World& w; unsigned& n;
+  BindCopy(World& w_, unsigned& n_) : w(w_), n(n_) {}
+  void operator()(std::shared_ptr<AudioProgramme> p) const { bind_new(w, n, KProg, p); }
+  void operator()(std::shared_ptr<AudioContent> p) const { bind_new(w, n, KCont, p); }
+  void operator()(std::shared_ptr<AudioObject> p) const { bind_new(w, n, KObj, p); }
+  void operator()(std::shared_ptr<AudioPackFormat> p) const { bind_new(w, n, KPack, p); }
+  void operator()(std::shared_ptr<AudioChannelFormat> p) const { bind_new(w, n, KChan, p); }
+  void operator()(std::shared_ptr<AudioStreamFormat> p) const { bind_new(w, n, KStream, p); }
+  void operator()(std::shared_ptr<AudioTrackFormat> p) const { bind_new(w, n, KTrack, p); }
+  void operator()(std::shared_ptr<AudioTrackUid> p) const { bind_new(w, n, KUid, p); }
+};
+
 bool run_op2(World& w, const std::vector<std::string>& t, std::ostream& out, std::string& r) {
-  (void)w; (void)t; (void)out; (void)r;
+  (void)out;
+  const std::string& c = t[0];
+  if (c == "block") { r = do_block(w, t); return true; }
+  if (c == "settimes") {
+    El& e = w.el(t.at(1));
+    if (e.kind == KProg) {
+      if (t.at(2) != "-") e.prog->set(Start(parse_tm(t[2]))); else e.prog->unset<Start>();
+      if (t.at(3) != "-") e.prog->set(End(parse_tm(t[3]))); else e.prog->unset<End>();
+    } else if (e.kind == KObj) {
+      if (t.at(2) != "-") e.obj->set(Start(parse_tm(t[2]))); else e.obj->unset<Start>();
+      if (t.at(3) != "-") e.obj->set(Duration(parse_tm(t[3]))); else e.obj->unset<Duration>();
+    } else throw Bad();
+    r = "ok";
+    return true;
+  }
+  if (c == "copy") {
+    El& e = w.el(t.at(1));
+    if (w.els.count(t.at(2))) throw Bad();
+    switch (e.kind) {
+      case KProg: w.bind(t[2], mk(KProg, e.prog->copy())); break;
+      case KCont: w.bind(t[2], mk(KCont, e.cont->copy())); break;
+      case KObj: w.bind(t[2], mk(KObj, e.obj->copy())); break;
+      case KPack: w.bind(t[2], mk(KPack, e.pack->copy())); break;
+      case KChan: w.bind(t[2], mk(KChan, e.chan->copy())); break;
+      case KStream: w.bind(t[2], mk(KStream, e.stream->copy())); break;
+      case KTrack: w.bind(t[2], mk(KTrack, e.track->copy())); break;
+      default: w.bind(t[2], mk(KUid, e.uid->copy())); break;
+    }
+    r = "ok";
+    return true;
+  }
+  if (c == "deepcopy") {
+    auto src = w.doc(t.at(1));
+    if (w.docs.count(t.at(2))) throw Bad();
+    auto cp = src->deepCopy();
+    w.docs[t[2]] = cp;
+    w.docname[cp.get()] = t[2];
+    unsigned n = std::stoul(t.at(3));
+    for (auto& p : cp->getElements<AudioProgramme>()) bind_new(w, n, KProg, p);
+    for (auto& p : cp->getElements<AudioContent>()) bind_new(w, n, KCont, p);
+    for (auto& p : cp->getElements<AudioObject>()) bind_new(w, n, KObj, p);
+    for (auto& p : cp->getElements<AudioPackFormat>()) bind_new(w, n, KPack, p);
+    for (auto& p : cp->getElements<AudioChannelFormat>()) bind_new(w, n, KChan, p);
+    for (auto& p : cp->getElements<AudioStreamFormat>()) bind_new(w, n, KStream, p);
+    for (auto& p : cp->getElements<AudioTrackFormat>()) bind_new(w, n, KTrack, p);
+    for (auto& p : cp->getElements<AudioTrackUid>()) bind_new(w, n, KUid, p);
+    r = "ok";
+    return true;
+  }
+  if (c == "deepcopyto") {
+    // adm::deepCopyTo(src, dest) is copyAllElements(src) followed by addElements(copies, dest); the two
+    // steps are called separately here only so that the copies can be given their script names
+    auto src = w.doc(t.at(1));
+    auto dst = w.doc(t.at(2));
+    unsigned n = std::stoul(t.at(3));
+    auto copies = copyAllElements(src);
+    for (auto& e : copies) boost::apply_visitor(BindCopy(w, n), e);
+    addElements(copies, dst);
+    r = "ok";
+    return true;
+  }
+  if (c == "reassign") { reassignIds(w.doc(t.at(1))); r = "ok"; return true; }
+  if (c == "trace") {
+    El& e = w.el(t.at(1), KProg);
+    RouteTracer tracer;
+    auto routes = tracer.run(std::shared_ptr<const AudioProgramme>(e.prog));
+    std::ostringstream o;
+    o << "ok routes [";
+    bool first = true;
+    for (auto const& route : routes) {
+      if (!first) o << "|";
+      first = false;
+      bool f2 = true;
+      for (auto const& el : route) {
+        if (!f2) o << ">";
+        f2 = false;
+        o << w.name(boost::apply_visitor(PtrOf(), el));
+      }
+    }
+    o << "]";
+    r = o.str();
+    return true;
+  }
+  if (c == "fixdur") {
+    auto d = w.doc(t.at(1));
+    // harness guard: after a failed call a document may reference a channel format it does not list; libadm
+    // then dereferences the null result of lookup(). Such states are outside every property (C03): the call is
+    // not made and the rest of the case is not compared ("unsupported").
+    for (auto& prog : d->getElements<AudioProgramme>()) {
+      RouteTracer tracer;
+      for (auto const& route : tracer.run(std::shared_ptr<const AudioProgramme>(prog))) {
+        auto ch = route.getLastOf<AudioChannelFormat>();
+        if (ch && !d->lookup(ch->get<AudioChannelFormatId>())) { r = "unsupported"; return true; }
+      }
+    }
+    if (t.at(2) == "-") updateBlockFormatDurations(d);
+    else updateBlockFormatDurations(d, parse_tm(t[2]));
+    r = "ok";
+    return true;
+  }
+  if (c == "simple") {
+    unsigned n = std::stoul(t.at(2));
+    bool shortS = t.size() > 3 && t[3] == "short";
+    for (unsigned k = 0; k < 6; ++k) if (w.els.count("h" + std::to_string(n + k))) throw Bad();
+    SimpleObjectHolder h;
+    std::string name = "h" + std::to_string(n);
+    if (t.at(1) == "-") h = shortS ? createSimpleObjectShortStructure(name) : createSimpleObject(name);
+    else h = shortS ? addSimpleObjectShortStructureTo(w.doc(t[1]), name) : addSimpleObjectTo(w.doc(t[1]), name);
+    w.bind("h" + std::to_string(n), mk(KObj, h.audioObject));
+    w.bind("h" + std::to_string(n + 1), mk(KPack, h.audioPackFormat));
+    if (!shortS) {
+      w.bind("h" + std::to_string(n + 2), mk(KStream, h.audioStreamFormat));
+      w.bind("h" + std::to_string(n + 3), mk(KTrack, h.audioTrackFormat));
+    }
+    w.bind("h" + std::to_string(n + 4), mk(KChan, h.audioChannelFormat));
+    w.bind("h" + std::to_string(n + 5), mk(KUid, h.audioTrackUid));
+    r = "ok";
+    return true;
+  }
   return false;
 }
 }  // namespace
